@@ -88,9 +88,10 @@ Configs ==
   \cup
   {[depth |-> 2, width |-> 1, granularity |-> 0, transparent |-> t, read_on_resp |-> r,
     read_ports |-> 2, write_ports |-> 1] : t \in BOOLEAN, r \in BOOLEAN}
-\* configurations whose every transition is replayed into the real MemoryBank
-ConfigsEdge == {c \in Configs : c.write_ports = 1 /\ c.read_ports = 1}
-ConfigsEdgeBig == {c \in Configs : c.read_ports = 1}
+\* configurations whose every transition is replayed into the real MemoryBank (quick / thorough);
+\* the others have large graphs (request-time values sit in the queue entries)
+ConfigsEdge == {c \in Configs : c.read_ports = 1 /\ c.write_ports = 1 /\ (c.read_on_resp \/ c.granularity = 0)}
+ConfigsEdgeBig == {c \in Configs : c.read_ports = 1 /\ (c.write_ports = 1 \/ c.read_on_resp)}
 ArgDom(cfg, m) ==
   IF IsReq(m) THEN 0..(cfg.depth - 1)
   ELSE IF IsResp(m) THEN {0}
